@@ -63,7 +63,26 @@ def rx_label(pos, text):
     return None
 
 
+LOOP_WORDS = ["a", "b", "and", "or", "x1", "--opt", "k"]
+
+
+def loop_grammar(rng):
+    """automata that loop back into their start state (which the minimiser numbers like its dead state, 0): separator-style
+    repetitions at top level and inside a word"""
+    a, b, c = rng.sample(LOOP_WORDS, 3)
+    shapes = [f"cmd {a} [{b} {a}]...;\n",
+              f"cmd <KV> [{c} <KV>]...;\n<KV> = {a} | {b};\n",
+              f"cmd {a} [--o=<V>[,<V>]... {a}]...;\n<V> = {b} | {c};\n",
+              f"cmd [{a} | {b} {c}]...;\n",
+              f"cmd ({a} {b})... {c};\n",
+              f"cmd {a} [p=<V>[:<V>]... {a}]... {c};\n<V> = {b} | {{{{{{ echo x }}}}}};\n",
+              f"cmd --level=({a}[+]... | {b}[+]...) {c};\n"]
+    return rng.choice(shapes)
+
+
 def gen_grammar(rng):
+    if rng.random() < 0.2:
+        return loop_grammar(rng)
     g = gen.Gen(rng, max_depth=rng.choice([2, 3, 4]), p_sub=0.3, p_descr=0.35, p_cmd=0.15,
                 cmd_texts=["echo c1", "echo c2; echo c3"] + rng.sample(NASTY_CMDS, 2))
     variants, defs = g.grammar_parts()
